@@ -5,6 +5,7 @@ package main
 
 import (
 	"bytes"
+	"encoding/json"
 	"fmt"
 	"io"
 	"os"
@@ -418,4 +419,10 @@ func (c *Call) cliArgs(threads int) (args []string, stdin string, outfile string
 		engine.EngineError("cliArgs: unknown command %q", c.Cmd)
 	}
 	return
+}
+
+func mustJSON(s string, v interface{}) {
+	if err := json.Unmarshal([]byte(s), v); err != nil {
+		engine.EngineError("bad case json: %v", err)
+	}
 }
